@@ -1516,6 +1516,58 @@ func main() {
 		fail("removeEntry not found")
 	}
 
+	// store.go, maintenance(): in the write loop the batch is followed by a blocking s.policyMu.Lock() and then s.drainWrite(),
+	// unconditionally (no TryLock, no continue between collecting the batch and applying it)
+	if fd := findFunc(internal, "maintenance"); fd != nil && fd.Body != nil {
+		shape := false
+		for _, st := range fd.Body.List {
+			fs, ok := st.(*ast.ForStmt)
+			if !ok {
+				continue
+			}
+			ast.Inspect(fs.Body, func(m ast.Node) bool {
+				cc, ok := m.(*ast.CommClause)
+				if !ok || cc.Comm == nil {
+					return true
+				}
+				as, ok := cc.Comm.(*ast.AssignStmt)
+				if !ok || len(as.Rhs) != 1 {
+					return true
+				}
+				if u, ok := as.Rhs[0].(*ast.UnaryExpr); !ok || u.Op != token.ARROW || exprString(u.X) != "s.writeChan" {
+					return true
+				}
+				// the statements of this case, top level only
+				n := len(cc.Body)
+				if n >= 3 {
+					l, okl := cc.Body[n-3].(*ast.ExprStmt)
+					d, okd := cc.Body[n-2].(*ast.ExprStmt)
+					u2, oku := cc.Body[n-1].(*ast.ExprStmt)
+					if okl && okd && oku {
+						lc, _ := l.X.(*ast.CallExpr)
+						dc, _ := d.X.(*ast.CallExpr)
+						uc, _ := u2.X.(*ast.CallExpr)
+						if lc != nil && dc != nil && uc != nil && exprString(lc.Fun) == "s.policyMu.Lock" && exprString(dc.Fun) == "s.drainWrite" && exprString(uc.Fun) == "s.policyMu.Unlock" {
+							shape = true
+						}
+					}
+				}
+				// nothing at the top level of the case may leave it early
+				for _, b := range cc.Body {
+					switch b.(type) {
+					case *ast.IfStmt, *ast.BranchStmt, *ast.ReturnStmt:
+						shape = false
+					}
+				}
+				return false
+			})
+		}
+		fmt.Fprintf(&cb, "(* store.go, maintenance(): a collected batch is followed, unconditionally, by a blocking policyMu.Lock(), drainWrite(), Unlock() *)\nDefinition c_write_loop_shape : bool := %v.\n", shape)
+		rep.Consts = append(rep.Consts, "write_loop_shape")
+	} else {
+		fail("maintenance not found")
+	}
+
 	// store.go, Store.Close: the loop over the shards comes first, nothing in Close can leave before its end, every shard is closed under its own lock
 	{
 		var fdc *ast.FuncDecl
